@@ -423,10 +423,22 @@ func h265RtCase(c *Case, addDONL, skip bool, mtu int, frames [][]h265Framed) {
 	p := &codecs.H265Payloader{AddDONL: addDONL, SkipAggregation: skip}
 	c.O.Nat(len(frames))
 	kinds := map[string]bool{}
+	// payload the whole history first, decode afterwards: what a call returned must still be that
+	// frame's packets when the later frames have been packetized
+	type h265Out struct {
+		out      [][]byte
+		panicked bool
+	}
+	all := make([]h265Out, 0, len(frames))
 	for _, f := range frames {
 		buf := h265FrameBytes(f)
-		var out [][]byte
-		if try(func() { out = p.Payload(uint16(mtu), buf) }) {
+		var r h265Out
+		r.panicked = try(func() { r.out = p.Payload(uint16(mtu), buf) })
+		all = append(all, r)
+	}
+	for k, f := range frames {
+		out := all[k].out
+		if all[k].panicked {
 			c.O.Panic()
 			continue
 		}
